@@ -84,7 +84,11 @@ pub fn parse_args(argv: &[String]) -> Args {
 }
 
 fn join_rel(cwd: &str, p: &str) -> String {
-    // path of `p` (relative to cwd) relative to the sandbox root, normalised (no `.` / `..`)
+    // path of `p` (relative to cwd, or absolute below `$ROOT`) relative to the sandbox root, normalised (no `.` / `..`)
+    let (cwd, p) = match p.strip_prefix("$ROOT/") {
+        Some(rest) => ("", rest),
+        None => (cwd, p),
+    };
     let mut parts: Vec<&str> = cwd.split('/').filter(|s| !s.is_empty()).collect();
     for seg in p.split('/') {
         match seg {
@@ -200,9 +204,32 @@ fn gen_tree(t: &mut Tape, labels: &mut Vec<&'static str>, with_errors: bool) -> 
             1 => ".txt",
             _ => ".lua",
         };
-        let name = format!("{dir}f{i}{ext}");
-        let class = t.pick(if with_errors { 13 } else { 10 });
-        // classes 5, 6 (and 7 below) only exist with errors: remap so that the others are the valid-file classes
+        let mut name = format!("{dir}f{i}{ext}");
+        // now and then a sibling of the previous file: same stem with the other Lua extension, or the same name in
+        // another letter case (distinct files on a case-sensitive file system)
+        if let (Some(prev), 0) = (names.last().cloned(), t.pick(6)) {
+            let prev: String = prev;
+            let sibling = if let Some(stem) = prev.strip_suffix(".luau") {
+                format!("{stem}.lua")
+            } else if let Some(stem) = prev.strip_suffix(".lua") {
+                if t.chance(128) {
+                    format!("{stem}.luau")
+                } else {
+                    match stem.rsplit_once('/') {
+                        Some((d, b)) => format!("{d}/{}.lua", b.to_uppercase()),
+                        None => format!("{}.lua", stem.to_uppercase()),
+                    }
+                }
+            } else {
+                name.clone()
+            };
+            if !case.files.contains_key(&sibling) {
+                name = sibling;
+                labels.push("file:sibling-name");
+            }
+        }
+        let class = t.pick(if with_errors { 14 } else { 10 });
+        // classes 5, 6, 7 and 13 only exist with errors: remap so that the others are the valid-file classes
         let class = if with_errors { class } else { [0, 1, 2, 3, 4, 8, 9, 10, 11, 12][class] };
         let variant = t.pick(8);
         let messy = messy_program(i + 10 * t.pick(4));
@@ -243,6 +270,12 @@ fn gen_tree(t: &mut Tape, labels: &mut Vec<&'static str>, with_errors: bool) -> 
             10 => {
                 labels.push("file:empty");
                 Vec::new()
+            }
+            13 => {
+                // a byte order mark in front of formatted code: not Lua text for the parser
+                labels.push("file:bom");
+                let f = lib_format(&messy, config).unwrap_or(messy);
+                format!("{}{f}", '\u{feff}').into_bytes()
             }
             11 => {
                 // no token and no comment: the formatted form is the empty file
@@ -863,6 +896,13 @@ fn gen_c18(t: &mut Tape, labels: &mut Vec<&'static str>) -> Option<CliCase> {
         labels.push("carrier:stdin");
         case.stdin = Some(case.files["f.lua"].clone());
         argv.push("-".into());
+    } else if t.chance(60) {
+        // a second file with the same bytes: both need the same diff, and both must be reported
+        labels.push("twin-file");
+        let bytes = case.files["f.lua"].clone();
+        case.files.insert("g.lua".into(), bytes);
+        argv.push("f.lua".into());
+        argv.push("g.lua".into());
     } else {
         argv.push("f.lua".into());
     }
@@ -879,6 +919,9 @@ fn c18_oracle(case: &CliCase, run: &CliRun) -> Verdict {
     let differs = formatted != original;
     // text piped through stdin is reported under the name `stdin`
     let name = if case.stdin.is_some() { "stdin" } else { "f.lua" };
+    if case.files.contains_key("g.lua") {
+        return c18_twins(case, run, &args, original, &formatted);
+    }
     if let Some(d) = tree_unchanged(run) {
         return Verdict::Fail(format!("--check changed the file system: {d}"));
     }
@@ -921,6 +964,82 @@ fn c18_oracle(case: &CliCase, run: &CliRun) -> Verdict {
         }
         _ => Verdict::Pass { nontrivial: true },
     }
+}
+
+/// two files with the same bytes in one run: each is reported, each report reconstructs the formatted text
+fn c18_twins(_case: &CliCase, run: &CliRun, args: &Args, original: &str, formatted: &str) -> Verdict {
+    let stdout = String::from_utf8_lossy(&run.stdout).to_string();
+    let differs = formatted != original;
+    if let Some(d) = tree_unchanged(run) {
+        return Verdict::Fail(format!("--check changed the file system: {d}"));
+    }
+    if run.code != Some(if differs { 1 } else { 0 }) {
+        return Verdict::Fail(format!("exit status {:?} although the files {} their formatted text", run.code, if differs { "differ from" } else { "equal" }));
+    }
+    if !differs {
+        if !stdout.lines().all(|l| { let p = strip_ansi(l); p != "f.lua" && p != "g.lua" && !p.starts_with("Diff in") && !p.starts_with("---") && !p.starts_with('{') }) {
+            return Verdict::Fail("a diff was printed although the files equal their formatted text".into());
+        }
+        return Verdict::Pass { nontrivial: false };
+    }
+    match args.output_format.as_str() {
+        "unified" => {
+            // diffs carry no file name: one block per differing file
+            let mut blocks: Vec<String> = Vec::new();
+            let all = lines_keepends(&stdout);
+            for (i, l) in all.iter().enumerate() {
+                // a header is `--- old` followed by `+++ new` (a removed comment line also begins with `---`)
+                if l.trim_end() == "--- old" && all.get(i + 1).map_or(false, |n| n.trim_end() == "+++ new") {
+                    blocks.push(String::new());
+                }
+                if let Some(b) = blocks.last_mut() {
+                    b.push_str(l);
+                }
+            }
+            if blocks.len() != 2 {
+                return Verdict::Fail(format!("{} unified diffs printed for two differing files", blocks.len()));
+            }
+            for b in &blocks {
+                match apply_unified(original, b) {
+                    Ok(r) if r == formatted => {}
+                    Ok(_) => return Verdict::Fail("applying a unified diff does not give the formatted text".into()),
+                    Err(e) => return Verdict::Fail(format!("a unified diff does not apply to the file: {e}")),
+                }
+            }
+        }
+        "json" => {
+            let mut seen = BTreeSet::new();
+            for line in stdout.lines() {
+                let Ok(v) = serde_json::from_str::<serde_json::Value>(line) else { continue };
+                let Some(f) = v["file"].as_str() else { continue };
+                match apply_json(original, &v["mismatches"]) {
+                    Ok(r) if r == formatted => {
+                        seen.insert(f.to_string());
+                    }
+                    Ok(_) => return Verdict::Fail(format!("applying the JSON mismatches of {f} does not give the formatted text")),
+                    Err(e) => return Verdict::Fail(format!("the JSON mismatches of {f} do not apply: {e}")),
+                }
+            }
+            if seen.len() != 2 || !seen.contains("f.lua") || !seen.contains("g.lua") {
+                return Verdict::Fail(format!("JSON output reports {:?} for two differing files", seen));
+            }
+        }
+        "summary" => {
+            for n in ["f.lua", "g.lua"] {
+                if !stdout.lines().any(|l| strip_ansi(l) == n) {
+                    return Verdict::Fail(format!("the summary does not list {n}"));
+                }
+            }
+        }
+        _ => {
+            for n in ["f.lua", "g.lua"] {
+                if !stdout.lines().any(|l| strip_ansi(l) == format!("Diff in {n}:")) {
+                    return Verdict::Fail(format!("no diff is printed for {n}"));
+                }
+            }
+        }
+    }
+    Verdict::Pass { nontrivial: true }
 }
 
 pub static C18: CliProp = CliProp {
@@ -1057,7 +1176,7 @@ fn gen_c17(t: &mut Tape, labels: &mut Vec<&'static str>) -> Option<CliCase> {
     }
     let search_parents = t.chance(100);
     let k = t.pick(50);
-    let stdin: Vec<u8> = match t.pick(12) {
+    let stdin: Vec<u8> = match t.pick(14) {
         0 | 1 | 2 => messy_program(k).into_bytes(),
         3 | 4 => generate(t, opts.syntax.unwrap_or(Syntax::Lua51), GenOpts { budget: 40, ..GenOpts::stmt_comments() }).source.into_bytes(),
         5 => {
@@ -1079,6 +1198,18 @@ fn gen_c17(t: &mut Tape, labels: &mut Vec<&'static str>) -> Option<CliCase> {
         9 => {
             labels.push("stdin:no-final-newline");
             messy_program(k).trim_end().to_string().into_bytes()
+        }
+        11 | 12 => {
+            // a header line and a long last line without a final newline (a minified one-liner): when the text is passed
+            // through for an ignored path, nothing may be lost
+            labels.push("stdin:long-unterminated-last-line");
+            let mut s = String::from("-- header\n");
+            s.push_str("local t = { ");
+            for i in 0..(300 + 40 * k) {
+                s.push_str(&format!("v{i},"));
+            }
+            s.push_str(" }");
+            s.into_bytes()
         }
         10 => {
             labels.push("stdin:large");
@@ -1109,12 +1240,28 @@ fn gen_c17(t: &mut Tape, labels: &mut Vec<&'static str>) -> Option<CliCase> {
     if t.chance(40) {
         argv.push("--verify".into());
     }
-    if t.chance(40) {
-        argv.push("--range-start".into());
-        argv.push((t.pick(60)).to_string());
-        argv.push("--range-end".into());
-        argv.push((60 + t.pick(200)).to_string());
-        labels.push("range");
+    if t.chance(60) {
+        // both bounds, one bound only, or bounds in reverse order
+        let a = t.pick(60);
+        let b = 60 + t.pick(200);
+        match t.pick(5) {
+            0 | 1 => {
+                argv.extend(["--range-start".to_string(), a.to_string(), "--range-end".to_string(), b.to_string()]);
+                labels.push("range");
+            }
+            2 => {
+                argv.extend(["--range-start".to_string(), a.to_string()]);
+                labels.push("range:start-only");
+            }
+            3 => {
+                argv.extend(["--range-end".to_string(), b.to_string()]);
+                labels.push("range:end-only");
+            }
+            _ => {
+                argv.extend(["--range-start".to_string(), b.to_string(), "--range-end".to_string(), a.to_string()]);
+                labels.push("range:reversed");
+            }
+        }
     }
     if t.chance(40) {
         argv.push("--no-editorconfig".into());
@@ -1348,9 +1495,11 @@ pub fn selection_model(case: &CliCase, args: &Args) -> (BTreeSet<String>, bool) 
 }
 
 const C16_IGNORES: [&str; 8] = ["skip.lua\n", "gen/\n", "/top.lua\n", "sub/inner.lua\n", "*.gen.lua\n", "**/deep.lua\n", "*.gen.lua\n!keep.gen.lua\n", "# nothing\n\n"];
-const C16_FILES: [&str; 20] = [
+const C16_FILES: [&str; 22] = [
     "sub/notes.txt", "gen/readme.md", "a.lua", "top.lua", "skip.lua", "b.luau", "notes.txt", "x.gen.lua", "keep.gen.lua", "sub/inner.lua", "sub/top.lua", "sub/skip.lua", "sub/more/deep.lua", "sub/more/z.lua", "gen/out.lua",
     "gen/sub/out2.lua", ".hidden.lua", ".config/h.lua", "sub/.secret/s.lua", "deep.lua",
+    // extensions in another letter case do not match the default globs `**/*.lua` / `**/*.luau`
+    "UPPER.LUA", "sub/Mixed.Lua",
 ];
 
 fn gen_c16(t: &mut Tape, labels: &mut Vec<&'static str>) -> Option<CliCase> {
@@ -1859,7 +2008,7 @@ fn gen_editorconfig(t: &mut Tape, root_flag: bool) -> String {
     }
     let nsec = t.pick(3);
     for _ in 0..nsec {
-        let glob = ["*", "*.lua", "t.lua", "*.luau"][t.pick(4)];
+        let glob = ["*", "*.lua", "t.lua", "*.luau", "u.lua"][t.pick(5)];
         s.push_str(&format!("[{glob}]\n"));
         let n = 1 + t.pick(4);
         for _ in 0..n {
@@ -1934,6 +2083,11 @@ fn gen_c15(t: &mut Tape, labels: &mut Vec<&'static str>) -> Option<CliCase> {
     for d in ["", "sub/", "sub/subsub/"] {
         case.files.insert(format!("{C15_CWD}/{d}t.lua"), crate::cli::PROBE.as_bytes().to_vec());
     }
+    // a second file name next to two of them: EditorConfig sections select by name, so files of one directory can
+    // resolve to different configurations within one run
+    for d in ["", "sub/"] {
+        case.files.insert(format!("{C15_CWD}/{d}u.lua"), crate::cli::PROBE.as_bytes().to_vec());
+    }
     let mut argv: Vec<String> = Vec::new();
     if t.chance(50) {
         let cfg = distinct_cfg(t, 55);
@@ -1966,12 +2120,25 @@ fn gen_c15(t: &mut Tape, labels: &mut Vec<&'static str>) -> Option<CliCase> {
         argv.extend(o.to_flags());
         labels.push("cli-overrides");
     }
-    match t.pick(6) {
+    match t.pick(7) {
         0 => {
             argv.push("t.lua".into());
+            argv.push("u.lua".into());
             argv.push("sub/t.lua".into());
+            argv.push("sub/u.lua".into());
             argv.push("sub/subsub/t.lua".into());
             labels.push("target:explicit-files");
+        }
+        6 => {
+            // a file outside the working directory's subtree, named by its absolute path. The README does not say where
+            // the search for stylua.toml ends for such a file, so none lies on its way up; what is documented is that
+            // the XDG / HOME locations are only used with --search-parent-directories, and the EditorConfig rules
+            case.dirs.push("elsewhere".into());
+            case.files.insert("elsewhere/t.lua".into(), crate::cli::PROBE.as_bytes().to_vec());
+            case.files.remove("stylua.toml");
+            case.files.remove(".stylua.toml");
+            argv.push("$ROOT/elsewhere/t.lua".into());
+            labels.push("target:absolute-outside-cwd");
         }
         1 => {
             argv.push(".".into());
@@ -2068,6 +2235,8 @@ struct Carrier {
     what: String,
     case: CliCase,
     expect: sl::Config,
+    /// a second file of the same run (`u.lua`) and the configuration expected for it
+    also: Option<sl::Config>,
 }
 
 fn base_case() -> CliCase {
@@ -2101,7 +2270,7 @@ fn c20_carriers() -> Vec<Carrier> {
         if let Some(e) = ec {
             case.files.insert(".editorconfig".into(), format!("root = true\n\n[*.lua]\n{e}\n").into_bytes());
         }
-        out.push(Carrier { what, case, expect });
+        out.push(Carrier { what, case, expect, also: None });
     };
     // one option at a time, through OptCfg for toml and flags
     let mut single: Vec<(String, OptCfg)> = Vec::new();
@@ -2170,7 +2339,7 @@ fn c20_carriers() -> Vec<Carrier> {
         let expect = o.apply(d);
         let mut case = base_case();
         case.files.insert(".editorconfig".into(), format!("root = true\n\n[*.lua]\n{text}\n").into_bytes());
-        out.push(Carrier { what: format!("{what} via .editorconfig"), case, expect });
+        out.push(Carrier { what: format!("{what} via .editorconfig"), case, expect, also: None });
     };
     ec("indent_style=tab", "indent_style = tab", OptCfg { indent_type: Some(Indent::Tabs), ..OptCfg::default() });
     ec("indent_style=space", "indent_style = space", OptCfg { indent_type: Some(Indent::Spaces), ..OptCfg::default() });
@@ -2206,6 +2375,23 @@ fn c20_carriers() -> Vec<Carrier> {
     }
     ec("sort_requires=true", "sort_requires = true", OptCfg { sort_requires: Some(true), ..OptCfg::default() });
     ec("sort_requires=false", "sort_requires = false", OptCfg { sort_requires: Some(false), ..OptCfg::default() });
+    // EditorConfig sections select by file name: two files of one directory, formatted in one run, each get the
+    // value of their own section (in both argument orders and through the directory)
+    let pairs: [(&str, &str, OptCfg, &str, OptCfg); 4] = [
+        ("quote_type", "quote_type = single", OptCfg { quote_style: Some(Quotes::AutoPreferSingle), ..OptCfg::default() }, "quote_type = double", OptCfg { quote_style: Some(Quotes::AutoPreferDouble), ..OptCfg::default() }),
+        ("max_line_length", "max_line_length = 40", OptCfg { column_width: Some(40), ..OptCfg::default() }, "max_line_length = 200", OptCfg { column_width: Some(200), ..OptCfg::default() }),
+        ("indent_style", "indent_style = space\nindent_size = 2", OptCfg { indent_type: Some(Indent::Spaces), indent_width: Some(2), ..OptCfg::default() }, "indent_style = tab", OptCfg { indent_type: Some(Indent::Tabs), ..OptCfg::default() }),
+        ("call_parentheses", "call_parentheses = None", OptCfg { call_parentheses: Some(CallParens::None), ..OptCfg::default() }, "call_parentheses = Always", OptCfg { call_parentheses: Some(CallParens::Always), ..OptCfg::default() }),
+    ];
+    for (key, text_t, cfg_t, text_u, cfg_u) in pairs {
+        for (k, argv) in [vec!["t.lua", "u.lua"], vec!["u.lua", "t.lua"], vec!["."]].into_iter().enumerate() {
+            let mut case = base_case();
+            case.files.insert("u.lua".into(), crate::cli::PROBE.as_bytes().to_vec());
+            case.files.insert(".editorconfig".into(), format!("root = true\n\n[t.lua]\n{text_t}\n\n[u.lua]\n{text_u}\n").into_bytes());
+            case.argv = argv.iter().map(|a| a.to_string()).collect();
+            out.push(Carrier { what: format!("{key} per file via .editorconfig sections (arguments {k})"), case, expect: cfg_t.apply(d), also: Some(cfg_u.apply(d)) });
+        }
+    }
     out
 }
 
@@ -2265,7 +2451,14 @@ fn c20_extra(rep: &mut crate::run::Reporter, stats: &mut crate::run::Stats, _tie
             continue;
         };
         let got = run.after.get("t.lua").map(|f| f.bytes.clone()).unwrap_or_default();
-        if got != want.as_bytes() || run.code != Some(0) {
+        let second_ok = match &c.also {
+            None => true,
+            Some(cfg) => match lib_format(crate::cli::PROBE, *cfg) {
+                Some(w) => run.after.get("u.lua").map_or(false, |f| f.bytes == w.as_bytes()),
+                None => true,
+            },
+        };
+        if got != want.as_bytes() || run.code != Some(0) || !second_ok {
             let detail = format!("{}: the file on disk is not the library's output for that option value (exit {:?}; stderr: {})", c.what, run.code, String::from_utf8_lossy(&run.stderr).lines().next().unwrap_or(""));
             rep.violation(crate::clirun::replay_value("C20", &c.case, &detail, "E2-carriers", Some(&run)), "E2");
         } else {
@@ -2279,7 +2472,7 @@ fn c20_extra(rep: &mut crate::run::Reporter, stats: &mut crate::run::Stats, _tie
     // malformed configuration files: exit 2 and nothing modified; in the cwd file and through --config-path
     let mut mal: Vec<(String, CliCase)> = Vec::new();
     for (what, text) in MALFORMED {
-        for via in 0..3 {
+        for via in 0..6 {
             let mut case = base_case();
             case.files.insert("other.lua".into(), messy_program(3).into_bytes());
             match via {
@@ -2291,9 +2484,32 @@ fn c20_extra(rep: &mut crate::run::Reporter, stats: &mut crate::run::Stats, _tie
                     case.files.insert(".stylua.toml".into(), text.as_bytes().to_vec());
                     case.argv = vec!["--check".into(), "t.lua".into(), "other.lua".into()];
                 }
-                _ => {
+                2 => {
                     case.files.insert("conf/my.toml".into(), text.as_bytes().to_vec());
                     case.argv = vec!["--config-path".into(), "conf/my.toml".into(), "t.lua".into()];
+                }
+                3 => {
+                    // found in a parent directory with --search-parent-directories
+                    case.cwd = "proj/work".into();
+                    for f in ["t.lua", "other.lua"] {
+                        if let Some(v) = case.files.remove(f) {
+                            case.files.insert(format!("proj/work/{f}"), v);
+                        }
+                    }
+                    case.files.insert("proj/stylua.toml".into(), text.as_bytes().to_vec());
+                    case.argv = vec!["--search-parent-directories".into(), "t.lua".into()];
+                }
+                4 => {
+                    // the user-level locations, reached with --search-parent-directories when nothing lies on the way up
+                    case.files.insert("xdg/stylua/stylua.toml".into(), text.as_bytes().to_vec());
+                    case.env.insert("XDG_CONFIG_HOME".into(), "$ROOT/xdg".into());
+                    case.env.insert("HOME".into(), "$ROOT/home".into());
+                    case.argv = vec!["--search-parent-directories".into(), "t.lua".into()];
+                }
+                _ => {
+                    case.files.insert("home/.config/.stylua.toml".into(), text.as_bytes().to_vec());
+                    case.env.insert("HOME".into(), "$ROOT/home".into());
+                    case.argv = vec!["--search-parent-directories".into(), ".".into()];
                 }
             }
             mal.push((format!("{what} (carrier {via})"), case));
@@ -2353,6 +2569,19 @@ pub static C20: CliProp = CliProp {
 fn gen_c19(t: &mut Tape, labels: &mut Vec<&'static str>) -> Option<CliCase> {
     let mut case = CliCase::default();
     case.files.insert(".editorconfig".into(), b"root = true\n".to_vec());
+    if t.chance(24) {
+        // many small files whose names differ only in the extension (`m3.lua` / `m3.luau`), all to be written: workers
+        // run side by side for a while, whatever they share by name would collide
+        labels.push("many-sibling-pairs");
+        let pairs = 30 + t.pick(30);
+        for i in 0..pairs {
+            case.files.insert(format!("pkg/m{i}.lua"), messy_program(i).into_bytes());
+            case.files.insert(format!("pkg/m{i}.luau"), messy_program(i + 1).into_bytes());
+        }
+        labels.push("mode:write");
+        case.argv = vec!["--num-threads".into(), "2".into(), "pkg".into()];
+        return Some(case);
+    }
     let n = 1 + t.pick(5);
     let mut args: Vec<String> = Vec::new();
     for i in 0..n {
